@@ -27,7 +27,11 @@ CONFIG = dict(
     required_counters=("steps_compared", "observable_edits"),
 )
 
-EDITS = ["extend_failing", "iadd_failing", "set_slice_failing", "set_negative", "del_negative", "insert_negative",
+# opcodes whose arguments compare equal in Python yet mean different values (1 == True, 0.0 == -0.0, 1 == 1.0)
+TWINS = [(b"I1\n", b"I01\n"), (b"I0\n", b"I00\n"), (b"G\x00\x00\x00\x00\x00\x00\x00\x00", b"G\x80\x00\x00\x00\x00\x00\x00\x00"),
+         (b"F0.0\n", b"F-0.0\n"), (b"I1\n", b"I1\n"), (b"L1L\n", b"L1L\n")]
+
+EDITS = ["set_twin", "del_insert_twin", "extend_failing", "iadd_failing", "set_slice_failing", "set_negative", "del_negative", "insert_negative",
          "set_stepped_slice", "del_stepped_slice", "pop_negative",
          "insert_mid", "insert_front", "insert_before_stop", "set_int", "set_slice", "del_int", "del_slice",
          "append", "extend", "iadd", "pop", "pop_i", "remove", "reverse", "clear_refill",
@@ -82,7 +86,22 @@ def apply_edit(f, p, name, rng, pool, original):
             if j >= k:
                 raise RuntimeError("vp: iterable failed half-way through the edit")
             yield op
-    if name == "extend_failing":
+    if name in ("set_twin", "del_insert_twin"):
+        one_of = lambda b: f.Pickled.load(b + b".")[0]  # noqa: E731
+        for i, op in enumerate(p):
+            for a, b in TWINS:
+                if a != b and op.data in (a, b):
+                    new = one_of(b if op.data == a else a)
+                    if name == "set_twin":
+                        p[i] = new
+                    else:
+                        del p[i]
+                        p.insert(i, new)
+                    return
+        # no such opcode yet: put one in (the next twin edit swaps it)
+        a, b = rng.choice(TWINS)
+        p.insert(rng.randint(0, n), one_of(rng.choice((a, b))))
+    elif name == "extend_failing":
         p.extend(failing(rng.randint(1, 2)))
     elif name == "iadd_failing":
         p += failing(rng.randint(1, 2))
@@ -239,6 +258,8 @@ def starts(ctx):
     out.append(("asm-os", b"cos\nsystem\n(S'echo vp'\ntR."))
     out.append(("asm-inst", b"(K\x01ivp_sink\nK\n."))
     out.append(("asm-memo", b"]q\x00K\x01ah\x00\x86."))
+    out.append(("asm-twin-int", b"(I1\nI0\nt."))
+    out.append(("asm-twin-float", b"(G\x00\x00\x00\x00\x00\x00\x00\x00F0.0\nI00\nl."))
     if ctx.tier == "thorough":
         for i in range(40):
             out.append(("rand", asm.assemble(asm.random_program(asm.rng_for(ctx.seed, f"c14s{i}"), max_len=15, unsupported_p=0))))
